@@ -514,7 +514,15 @@ def taylor(n_exp_terms=6, norb=2, nocc=1):
     inp.build()
     sp = inp.sp
     prop = propagation.propagator_restricted(dt=0.01, n_walkers=1, n_exp_terms=n_exp_terms)
-    out, _ = evaluate(sp, prop._apply_trotprop_det, (hb["V"].s, hv["V"].s, hw["V"].s), (jnp.asarray(hb["V"].x), jnp.asarray(hv["V"].x) + 0j, jnp.asarray(hw["V"].x) + 0j))
+    name = f"C05.fp.taylor[n_exp_terms={n_exp_terms}]"
+    fns = ["propagation.propagator._apply_trotprop_det"]
+    try:
+        out, _ = evaluate(sp, prop._apply_trotprop_det, (hb["V"].s, hv["V"].s, hw["V"].s), (jnp.asarray(hb["V"].x), jnp.asarray(hv["V"].x) + 0j, jnp.asarray(hw["V"].x) + 0j))
+    except Unsupported:
+        raise
+    except Exception as e:   # noqa  - the real function cannot be traced for this (valid) number of terms: its native behaviour
+        return [ob(name, REFUTED, kind="bounded", backend="jax-trace", functions=fns, wall=time.time() - t0, replayed=True, witness_class="raises",
+                   detail=f"tracing _apply_trotprop_det with n_exp_terms={n_exp_terms} raises {type(e).__name__}: {str(e)[:200]}", witness=dict(error=repr(e)[:300]))]
     B, Vh, w = hb["V"].s, hv["V"].s, hw["V"].s
     acc = B.dot(w)
     term = acc
@@ -523,8 +531,12 @@ def taylor(n_exp_terms=6, norb=2, nocc=1):
         term = Vh.dot(term) * sp.const(Fraction(1, n))
         tot = tot + term
     want = B.dot(tot)
-    return [H.identity(f"C05.fp.taylor[n_exp_terms={n_exp_terms}]", out, want, functions=["propagation.propagator._apply_trotprop_det"], inputs=inp, t0=t0,
-                       note="B (sum_{n<n_exp_terms} vhs^n/n!) B phi; the distance to the exact exponential is the Taylor remainder (stated lemma)")]
+    o = H.identity(name, out, want, functions=fns, inputs=inp, t0=t0,
+                   note="B (sum_{n<n_exp_terms} vhs^n/n!) B phi; the distance to the exact exponential is the Taylor remainder (stated lemma)")
+    if o["status"] == REFUTED:
+        from contracts.allsizes import _replay_taylor
+        o["replayed"] = _replay_taylor(n_exp_terms)
+    return [o]
 
 
 def c04_canary():
